@@ -79,7 +79,7 @@ def fullS (f : Full) : String :=
 def rejS : Rej → String
   | .credNotBefore => "403:mod" | .credNotAfter => "403:mod"
   | .past => "400:val" | .naBeforeNb => "400:val" | .tooShort => "403:val" | .tooLong => "403:val"
-  | .lifetime0 => "500:cas"
+  | .lifetime0 => "500:cas" | .encode => "500:cas"
   | .afterGtBefore => "400:mv" | .mvEpoch => "400:mv" | .tokEpoch => "400:auth"
   | .badType => "0:mod"
   | .typeUnset => "400:val" | .typeUnknown => "400:val" | .vaZero => "400:val" | .vbBeforeVa => "400:val"
